@@ -73,16 +73,21 @@ func (j *job) url() string {
 
 type assetInfo struct {
 	name     string
+	mpd      string
 	segDurMS int
-	video    string
-	audio    string
+	vInit    string
+	vMedia   string // %s = number or time
+	aInit    string
+	aMedia   string
 	vTS      int // video timescale
 }
 
 var knownAssets = []assetInfo{
-	{"testpic_2s", 2000, "V300", "A48", 90000},
-	{"testpic_6s", 6000, "V300", "A48", 90000},
-	{"testpic_8s", 8000, "V300", "A48", 90000},
+	{"testpic_2s", "Manifest.mpd", 2000, "V300/init.mp4", "V300/%s.m4s", "A48/init.mp4", "A48/%s.m4s", 90000},
+	{"testpic_6s", "Manifest.mpd", 6000, "V300/init.mp4", "V300/%s.m4s", "A48/init.mp4", "A48/%s.m4s", 90000},
+	{"testpic_8s", "Manifest.mpd", 8000, "V300/init.mp4", "V300/%s.m4s", "A48/init.mp4", "A48/%s.m4s", 90000},
+	// HEVC + AC-3: an asset livesim2 cannot encrypt itself, flat segment names
+	{"bbb_hevc_ac3_8s", "manifest.mpd", 2000, "video_init.mp4", "video_%s.m4s", "audio_init.mp4", "audio_%s.m4s", 12288},
 }
 
 type concretizer struct {
@@ -113,7 +118,7 @@ func newConcretizer(seed int64, repo string) (*concretizer, error) {
 		return nil, err
 	}
 	for _, a := range knownAssets {
-		if _, err := os.Stat(filepath.Join(c.vodRoot, a.name, "Manifest.mpd")); err != nil {
+		if _, err := os.Stat(filepath.Join(c.vodRoot, a.name, a.mpd)); err != nil {
 			return nil, fmt.Errorf("known asset %s: %w", a.name, err)
 		}
 	}
@@ -141,7 +146,7 @@ func (c *concretizer) genericValue(class string, float bool) string {
 	case "empty":
 		return ""
 	case "zero":
-		return c.pick("0", "0", "00", "-0", "+0")
+		return c.pick("0", "0", "00", "-0", "000")
 	case "neg1":
 		return c.pick("-1", "-1", "-1", "-2", "-1500", "-60")
 	case "one":
@@ -151,9 +156,9 @@ func (c *concretizer) genericValue(class string, float bool) string {
 			"99999999999999999999999999")
 	case "nonnum":
 		if float { // strconv.ParseFloat accepts "NaN": not unambiguously non-numeric for a float parameter
-			return c.pick("abc", "x1", "1x", "%zz", "one", "١٢", "1 ", "1..2")
+			return c.pick("abc", "x1", "1x", "one", "١٢", "1 ", "1..2")
 		}
-		return c.pick("abc", "x1", "1x", "NaN", "0x10", "%zz", "one", "١٢", "1 ")
+		return c.pick("abc", "x1", "1x", "NaN", "0x10", "one", "١٢", "1 ")
 	case "float":
 		return c.pick("1.5", "0.5", "2.0", "2.5", ".5", "1e3", "8.0")
 	case "inf":
@@ -429,44 +434,46 @@ func (c *concretizer) livesimPath(a absReq, kvs []kv) (string, string) {
 		}
 		t := "Manifest.mpd"
 		if a.Tail != "mpd" && a.Tail != "mpp" {
-			t = fmt.Sprintf("%s/%d.m4s", ai.video, live)
+			t = fmt.Sprintf(ai.vMedia, strconv.FormatInt(live, 10))
 		} else if a.Tail == "mpp" {
 			t = "Manifest.mpp"
 		}
 		return params + name + "/" + t, extraQ
 	}
+	num := func(pat string, n int64) string { return fmt.Sprintf(pat, strconv.FormatInt(n, 10)) }
+	va := func() string { return c.pick(ai.vMedia, ai.aMedia) }
 	var t string
 	switch a.Tail {
 	case "mpd":
-		t = "Manifest.mpd"
+		t = ai.mpd
 	case "mpp":
-		t = "Manifest.mpp"
+		t = strings.Replace(ai.mpd, ".mpd", ".mpp", 1)
 	case "init":
-		t = c.pick(ai.video, ai.audio) + "/init.mp4"
+		t = c.pick(ai.vInit, ai.aInit)
 	case "vnum":
-		t = fmt.Sprintf("%s/%d.m4s", ai.video, live)
+		t = num(ai.vMedia, live)
 	case "anum":
-		t = fmt.Sprintf("%s/%d.m4s", ai.audio, live)
+		t = num(ai.aMedia, live)
 	case "vnum_lt", "anum_lt":
 		n := snr - 1 - c.rng.Int63n(3)
 		if n < 0 {
 			n = 0
 		}
-		rep := ai.video
+		pat := ai.vMedia
 		if a.Tail == "anum_lt" {
-			rep = ai.audio
+			pat = ai.aMedia
 		}
-		t = fmt.Sprintf("%s/%d.m4s", rep, n)
+		t = num(pat, n)
 	case "num_huge":
-		t = fmt.Sprintf("%s/%s.m4s", c.pick(ai.video, ai.audio), c.pick("4294967295", "4294967296", "2147483648", hugeStr))
+		t = fmt.Sprintf(va(), c.pick("4294967295", "4294967296", "2147483648", hugeStr))
 	case "num_ovf":
-		t = fmt.Sprintf("%s/%s.m4s", c.pick(ai.video, ai.audio), c.pick("9223372036854775808", "99999999999999999999999"))
+		t = fmt.Sprintf(va(), c.pick("9223372036854775808", "99999999999999999999999"))
 	case "vtime":
-		t = fmt.Sprintf("%s/%d.m4s", ai.video, (live-snr)*segS*int64(ai.vTS))
+		t = num(ai.vMedia, (live-snr)*segS*int64(ai.vTS))
 	case "atime":
 		// audio segment boundaries are sample aligned: {AT} is replaced in the child by a time taken from the
 		// segtimeline MPD of this asset at baseMS (only used to reach the valid path; no verdict depends on it)
-		t = fmt.Sprintf("%s/{AT:%s}.m4s", ai.audio, ai.name)
+		t = fmt.Sprintf(ai.aMedia, "{AT:"+ai.name+"/"+ai.mpd+"}")
 	case "bu_in", "bu_out":
 		n := 0
 		if a.Tail == "bu_out" {
@@ -474,16 +481,16 @@ func (c *concretizer) livesimPath(a absReq, kvs []kv) (string, string) {
 			np := strings.Count(tr, ",") + 1
 			n = np + []int{0, 1, 5, 1000000}[c.rng.Intn(4)]
 		}
-		t = fmt.Sprintf("bu%d/%s/%d.m4s", n, c.pick(ai.video, ai.audio), live)
+		t = fmt.Sprintf("bu%d/", n) + num(va(), live)
 	case "unk_rep":
-		t = c.pick("V999", "A49", "v300", "V300x", "thumbs2") + fmt.Sprintf("/%d.m4s", live)
+		t = c.pick("V999", "A49", "v300", "V300x", "thumbs2", "video") + fmt.Sprintf("/%d.m4s", live)
 		if c.rng.Intn(3) == 0 {
 			t = c.pick("V999", "X1") + "/init.mp4"
 		}
 	case "bad_seg":
-		t = c.pick(ai.video, ai.audio) + "/" + c.pick("abc.m4s", "x1.m4s", "-1.m4s", "seg_.m4s", "1_2.m4s")
+		t = fmt.Sprintf(va(), c.pick("abc", "x1", "-1", "seg_", "1_2"))
 	case "unk_ext":
-		t = fmt.Sprintf("%s/%d.%s", ai.video, live, c.pick("xyz", "ts", "m4", "MPD", "m4s2"))
+		t = strings.TrimSuffix(num(ai.vMedia, live), "m4s") + c.pick("xyz", "ts", "m4", "MPD", "m4s2")
 	case "subs_init":
 		t = "timestpp-en/init.mp4"
 	case "subs_media":
@@ -785,7 +792,7 @@ func (c *concretizer) concretize(id int, a absReq, rep int) job {
 		j.Path = "/urlgen/" + strings.TrimPrefix(a.Ep, "urlgen_")
 		if a.Ep == "urlgen_create" {
 			if a.Asset != "none" {
-				q.Set("mpd", "Manifest.mpd")
+				q.Set("mpd", c.pick("Manifest.mpd", "manifest.mpd", "nosuch.mpd"))
 			}
 			q.Set("stl", c.pick("nr", "tlt", "tlnr", "bad"))
 			for _, x := range kvs {
@@ -811,7 +818,7 @@ func (c *concretizer) concretize(id int, a absReq, rep int) job {
 		case "vod_file":
 			switch a.Asset {
 			case "known":
-				j.Path = "/vod/" + known + c.pick("/Manifest.mpd", "/V300/init.mp4", "/V300/1.m4s", "/", "")
+				j.Path = "/vod/" + c.pick("testpic_2s", "testpic_8s") + c.pick("/Manifest.mpd", "/V300/init.mp4", "/V300/1.m4s", "/", "")
 			default:
 				j.Path = "/vod/" + c.pick("nosuch_asset/Manifest.mpd", "testpic_2s/V999/1.m4s", "testpic_2s/Nosuch.mpd")
 			}
